@@ -360,13 +360,29 @@ impl LWWMembershipState {
         states
     }
 
+    /// Severity rank used only to break exact (incarnation, timestamp) ties in `merge`.
+    const fn health_rank(health: NodeHealth) -> u8 {
+        match health {
+            NodeHealth::Unknown => 0,
+            NodeHealth::Healthy => 1,
+            NodeHealth::Degraded => 2,
+            NodeHealth::Failed => 3,
+        }
+    }
+
     /// Merge incoming states. Returns list of node IDs that changed.
     pub fn merge(&mut self, incoming: &[GossipNodeState]) -> Vec<NodeId> {
         let mut changed = Vec::new();
 
         for state in incoming {
             let should_update = self.states.get(&state.node_id).map_or(true, |existing| {
-                let supersedes = state.supersedes(existing);
+                // Exact (incarnation, timestamp) ties between different health values are
+                // broken by a fixed severity rank, so the merged result is the maximum of a
+                // total order and does not depend on arrival order (CRDT convergence).
+                let supersedes = state.supersedes(existing)
+                    || (state.incarnation == existing.incarnation
+                        && state.timestamp == existing.timestamp
+                        && Self::health_rank(state.health) > Self::health_rank(existing.health));
                 if supersedes {
                     tracing::debug!(
                         node_id = %state.node_id,
